@@ -22,16 +22,21 @@ LEVEL_TEXT = ("Proof (F/P): for every schema triple whatsoever and all tables th
               "conflicting keys with mirrored entries and, on every other key, the same data column name by column name) inside a decidable scope "
               "(in_scope = schemas_okb && conv_okb && delete_exactb): compat_schemas_ok shows the readable class (one side keeps the ancestor's column "
               "list, the other changes the column SET or nothing) lies inside schemas_ok, conflict_iff_boundary shows delete_exact is necessary, and "
-              "oracle_on_model shows the oracle accepts the model on every in-scope input. Partial: the full conflict_iff / merge_swap "
+              "oracle_on_model shows the oracle accepts the model on every in-scope input. Representation-aware part (any class function: collation-equal, "
+              "byte-different cells): merge_total_g, and merge_swap_g — the two directions store the same BYTES on every non-conflicting key (the "
+              "tie-break 'larger byte string' at both sites of processColumn is what makes it true); the value-only theorems are the cls = identity "
+              "instance (row_merge_g_id). Partial: the full conflict_iff / merge_swap "
               "statements are false of the faithful model and of dolt in three situations, kept as *_refuted witnesses that are replayed on the "
               "implementation on every run: delete vs. update confined to an added column (resolved silently), byte-identical stored tuples under "
               "different column lists (taken for a convergent edit), moved columns with a byte-equal row (update invisible to the differ). "
               "The model is tied to the code by CALL dolt_merge in both directions on generated branch histories.")
 LEVEL_NOTE = ("Trusted: Coq kernel, Go harness (SQL script runner over the in-process engine), Python glue. Modelled, not verified: SQL DML (the three "
               "input tables are read back from the three commits), prolly-tree diff/patch machinery (C14/C30; the model is key-wise), value encodings and type "
-              "conversion (cells are compared as abstract values of one type class; type widening is not generated), column defaults (added columns have none), "
+              "conversion (a cell is its stored bytes plus a value class fed from the generator's vocabulary: case variants under utf8mb4_0900_ai_ci share a class, "
+              "every other value is its own class; sqlType.Compare is modelled as class equality, bytes.Equal/bytes.Compare on the bytes; type widening is not "
+              "generated), column defaults (added columns have none), "
               "secondary indexes and constraint validators (only their effect of selecting the slow merge path is exercised).")
-THEOREMS = ["merge_total", "merge_total_as_found_refuted", "row_merge_refines_spec_exact", "row_merge_refines_spec", "conflict_iff_in_scope",
+THEOREMS = ["merge_total", "merge_total_g", "merge_swap_g", "row_merge_g_id", "merge_total_as_found_refuted", "row_merge_refines_spec_exact", "row_merge_refines_spec", "conflict_iff_in_scope",
             "conflict_iff_boundary", "conflict_iff_partial", "conflict_iff_refuted", "merge_swap", "spec_swap", "compat_schemas_ok", "schemas_okb_iff",
             "merge_one_sided_left", "merge_one_sided_right", "merge_agree", "merge_cellwise", "reorder_update_lost", "byte_coincidence_refuted",
             "table_merge_get", "conflicts_exact", "oracle_on_model"]
@@ -39,13 +44,13 @@ REFUTED = ["merge_total_as_found_refuted (F5: processBaseColumn rightSchema with
            "byte_coincidence_refuted (byte-equal stored tuples under different schemas taken for a convergent edit)",
            "conflict_iff_refuted (delete vs update of a newly added column resolved silently)",
            "merge_swap_refuted / reorder_update_lost (reordered columns, byte-equal row)"]
-RULE = ("schemas with 1-2 int key columns and 2-4 nullable int/varchar columns, 0-12 base rows over a small key space, two branches with 0-7 "
+RULE = ("schemas with 1-2 int key columns and 2-4 nullable int / varchar / case-insensitive varchar (utf8mb4_0900_ai_ci, values differing only in case) columns, 0-12 base rows over a small key space, two branches with 0-7 "
         "inserts/updates/deletes each biased to a hot set of keys and cells, optional one-sided ADD COLUMN (any position) / DROP COLUMN / column move, "
         "optional secondary index (forces the row-by-row merge path); non-trivial = both branches differ from the base; distinct by script text")
-ASSUMPTIONS = ["added columns carry no DEFAULT; no type widening is generated (cells compared as abstract values)",
+ASSUMPTIONS = ["added columns carry no DEFAULT; no type widening is generated (a cell is its stored bytes plus a value class; only case variants of a ci collation share a class)",
                "at most one schema-changing statement per case, on one side"]
 REQUIRED_TAGS = ["conflict", "clean", "cellwise", "delete-modify", "insert-insert", "schema-add", "schema-drop", "schema-move",
-                 "no-schema-change", "with-index", "convergent"]
+                 "no-schema-change", "with-index", "convergent", "convergent-insert-case-variant", "swap-bytes-compared"]
 
 KEY_F5 = "processBaseColumn:rightSchema-with-left-index"
 KEY_NEWCOL = "TryMerge:delete-vs-update-of-added-column-resolved-silently"
@@ -54,6 +59,10 @@ KEY_COINCIDE = "ThreeWayDiffer:leftAndRightSchemasDiffer-ignored-byte-equal-rows
 
 INTS = [0, 1, 2, 3]
 STRS = ["a", "b", "c"]
+# values of a varchar column with a case-insensitive collation: representations (stored bytes) of two value classes
+CIVOC = sorted(["ab", "AB", "Ab", "cd", "CD"])      # byte order = the order bytes.Compare sees
+CICLASS = ["ab", "cd"]
+CI_SQLTY = "varchar(8) collate utf8mb4_0900_ai_ci"
 
 
 # --------------------------------------------------------------------------
@@ -62,11 +71,25 @@ STRS = ["a", "b", "c"]
 def lit(ty, rng, null_p=0.15):
     if rng.random() < null_p:
         return "NULL"
+    if ty == "ci":
+        return "'%s'" % rng.choice(CIVOC)
     return str(rng.choice(INTS)) if ty == "int" else "'%s'" % rng.choice(STRS)
 
 
 def sqlty(ty):
-    return "int" if ty == "int" else "varchar(8)"
+    return {"int": "int", "str": "varchar(8)", "ci": CI_SQLTY}[ty]
+
+
+def colty(rng):
+    x = rng.random()
+    return "int" if x < 0.6 else ("str" if x < 0.78 else "ci")
+
+
+def case_variant(lit_, rng):
+    """another representation of the same value class (or the same literal when there is none)"""
+    v = lit_.strip("'")
+    alts = [w for w in CIVOC if w.lower() == v.lower() and w != v]
+    return "'%s'" % rng.choice(alts) if alts and lit_ != "NULL" else lit_
 
 
 def keylit(k):
@@ -103,7 +126,7 @@ def gen_one(rng):
     npk = 1 if rng.random() < 0.7 else 2
     pk = ["p%d" % i for i in range(npk)]
     ncol = rng.randint(2, 4)
-    cols = [("c%d" % i, "int" if rng.random() < 0.7 else "str") for i in range(ncol)]
+    cols = [("c%d" % i, colty(rng)) for i in range(ncol)]
     keyspace = [(a,) for a in range(6)] if npk == 1 else [(a, b) for a in range(4) for b in range(2)]
     hot = rng.sample(keyspace, 3)
     hotcols = [c for c, _ in rng.sample(cols, min(2, len(cols)))]
@@ -138,7 +161,7 @@ def gen_one(rng):
             n1 = rng.randint(0, n)
             stmts += gen_dml(rng, pk, scols, hot, keyspace, n1, hotcols)
             if kind == "add":
-                ty = "int" if rng.random() < 0.7 else "str"
+                ty = colty(rng)
                 pos = rng.randint(0, len(scols))
                 where = "first" if pos == 0 and rng.random() < 0.5 else ("after %s" % scols[pos - 1][0] if pos > 0 else "after %s" % pk[-1])
                 if pos == len(scols) and rng.random() < 0.5:
@@ -164,6 +187,18 @@ def gen_one(rng):
         else:
             stmts += gen_dml(rng, pk, scols, hot, keyspace, n, hotcols)
         sides[s] = stmts
+    ci_cols = [c for c, t in cols if t == "ci"]
+    if ci_cols and kind in (None, "add") and rng.random() < 0.7:
+        # the same row written on both branches, the case-insensitive cells in different case:
+        # convergent inserts / convergent updates whose stored bytes differ
+        for _ in range(rng.choice([1, 1, 2])):
+            k = rng.choice(keyspace)
+            names = pk + [c for c, _ in cols]
+            vals = [lit(t, rng, 0.05) for _, t in cols]
+            vals2 = [case_variant(v, rng) if t == "ci" else v for v, (_, t) in zip(vals, cols)]
+            for side, vv in (("l", vals), ("r", vals2)):
+                sides[side].insert(rng.randint(0, len(sides[side])),
+                                   "replace into t (%s) values (%s)" % (", ".join(names), ", ".join([str(x) for x in k] + vv)))
     if kind is None and sides["l"] and rng.random() < 0.35:
         # the same statement on both branches: convergent edits / inserts
         sides["r"].insert(rng.randint(0, len(sides["r"])), rng.choice(sides["l"]))
@@ -186,6 +221,10 @@ def fixed_cases():
         # byte coincidence across schemas: (c0=0, c1=NULL) is stored as [0], the same bytes as (c1=0) after DROP COLUMN c0
         {"pk": ["p0"], "setup": ["create table t (p0 int not null, c0 int, c1 int, primary key (p0))", "insert into t values (1,0,0)"],
          "l": ["update t set c1=NULL where p0=1"], "r": ["alter table t drop column c0"], "kind": "drop", "index": False, "witness": KEY_COINCIDE},
+        # convergent insert and convergent update whose case-insensitive cells differ in case only: both directions must store the same bytes
+        {"pk": ["p0"], "setup": ["create table t (p0 int not null, c0 int, c1 %s, primary key (p0))" % CI_SQLTY, "insert into t values (1,1,'ab'),(2,2,'cd')"],
+         "l": ["insert into t values (3,3,'ab')", "update t set c1='AB', c0=5 where p0=1", "insert into t values (4,4,'CD')"],
+         "r": ["insert into t values (3,3,'AB')", "update t set c1='Ab', c0=5 where p0=1", "insert into t values (4,4,'cd')"], "kind": None, "index": False},
         # plain: cell-wise merge, modify/modify, delete/modify, insert/insert
         {"pk": ["p0"], "setup": base2, "l": ["update t set c0=7 where p0=1", "update t set c1=7 where p0=2", "delete from t where p0=3", "insert into t values (4,4,4)"],
          "r": ["update t set c1=8 where p0=1", "update t set c1=8 where p0=2", "update t set c0=0 where p0=3", "insert into t values (4,4,5)"],
@@ -243,10 +282,22 @@ def val(s):
         return None
     if s.startswith("i:"):
         return int(s[2:])
+    if s.startswith("s:") and s[2:] in CIVOC:
+        return 2000 + CIVOC.index(s[2:])          # representation: rank in byte order
     if s.startswith("s:"):
         x = s[2:]
         return 1000 + (STRS.index(x) if x in STRS else 500 + sum(ord(ch) for ch in x))
     return 99999
+
+
+def vclass(v):
+    """value class of a representation (identity except for the case-insensitive vocabulary)"""
+    if v is not None and 2000 <= v < 2000 + len(CIVOC):
+        return 3000 + CICLASS.index(CIVOC[v - 2000].lower())
+    return v
+
+
+CQ_CLS = "[" + "; ".join("(%d, %d)" % (2000 + i, vclass(2000 + i)) for i in range(len(CIVOC))) + "]"
 
 
 def keyN(vals):
@@ -353,9 +404,9 @@ BAD_OBS = "{| o_lr := {| d_class := 7; d_sm := []; d_rows := []; d_conf := [] |}
 def coq_case(case, out):
     d = parse(case, out)
     if d is None:
-        return "({| i_sb := []; i_sl := []; i_sr := []; i_b := []; i_l := []; i_r := [] |}, %s)" % BAD_OBS
-    inp = "{| i_sb := %s; i_sl := %s; i_sr := %s; i_b := %s; i_l := %s; i_r := %s |}" % (
-        cq_sch(d["sb"]), cq_sch(d["sl"]), cq_sch(d["sr"]), cq_table(d["B"]), cq_table(d["L"]), cq_table(d["R"]))
+        return "({| i_sb := []; i_sl := []; i_sr := []; i_b := []; i_l := []; i_r := []; i_cls := [] |}, %s)" % BAD_OBS
+    inp = "{| i_sb := %s; i_sl := %s; i_sr := %s; i_b := %s; i_l := %s; i_r := %s; i_cls := %s |}" % (
+        cq_sch(d["sb"]), cq_sch(d["sl"]), cq_sch(d["sr"]), cq_table(d["B"]), cq_table(d["L"]), cq_table(d["R"]), CQ_CLS)
     return "(%s, {| o_lr := %s; o_rl := %s |})" % (inp, cq_dir(d["m1"]), cq_dir(d["m2"]))
 
 
@@ -371,7 +422,7 @@ def analyse(d):
     B, L, R = dict(d["B"]), dict(d["L"]), dict(d["R"])
     sb, sl, sr = d["sb"], d["sl"], d["sr"]
     tags = set()
-    info = {"f5": {"m1": False, "m2": False}, "newcol": False, "reorder": False, "coincide": False}
+    info = {"f5": {"m1": False, "m2": False}, "newcol": False, "reorder": False, "coincide": False, "casevar": False}
     for k in set(B) | set(L) | set(R):
         b, l, r = logical(sb, B.get(k)), logical(sl, L.get(k)), logical(sr, R.get(k))
 
@@ -397,6 +448,12 @@ def analyse(d):
                     tags.add("cellwise")
         if b is not None and l is None and r is None:
             tags.add("delete-delete")
+        if l is not None and r is not None:
+            common = [c for c in sl if c in sr]
+            if any(l.get(c) != r.get(c) and vclass(l.get(c)) == vclass(r.get(c)) for c in common):
+                info["casevar"] = True
+                if b is None and all(vclass(l.get(c)) == vclass(r.get(c)) for c in common):
+                    tags.add("convergent-insert-case-variant")
         # F5 precondition per direction (ours, theirs): theirs deleted a row on which ours has a diff, and the two sides' column lists differ
         # (processBaseColumn then indexes theirs' schema with ours' column index: out of range -> panic, wrong type -> conversion error)
         for name, (o_, so, t_, st) in (("m1", (l, sl, r, sr)), ("m2", (r, sr, l, sl))):
@@ -445,6 +502,9 @@ def classify(case, out):
         t.append("moved-byte-equal")
     if info["coincide"]:
         t.append("cross-schema-byte-coincidence")
+    if info["casevar"] and d["m1"]["cls"] != 2 and d["m2"]["cls"] != 2:
+        # value-equal, byte-different cells met in a merge and both directions were read back and compared byte for byte
+        t.append("swap-bytes-compared")
     if info["f5"]["m1"] or info["f5"]["m2"]:
         t.append("f5-precondition")
     return sorted(set(t))
